@@ -250,3 +250,30 @@ Example C01_builder_example :
   map p_ctype (m_parts m) = [bs "text/plain"; bs "text/x"] /\ map p_enc (m_parts m) = [EncQP; EncQP] /\
   length (m_embeds m) = 0%nat /\ length (m_attach m) = 1%nat.
 Proof. vm_compute. auto. Qed.
+
+(* ---------------- a file's body is encoded as its emitted header says ----------------
+   T1: addFiles takes the body encoding from the Content-Transfer-Encoding header the File carries
+   (flag regenerated from the source; false if that data flow is removed) *)
+Theorem C01_t1_file_body_encoding_from_header : Gen.addfiles_body_enc_from_header = true.
+Proof. exact (eq_refl true). Qed.
+Print Assumptions C01_t1_file_body_encoding_from_header.
+
+(* for ANY header cache on the File (a Content-Transfer-Encoding pre-set by the caller, one cached by an
+   earlier render, or none) and ANY File.Enc (canonical name): the leaf's header cache names an encoding
+   v and the leaf's body is the content encoded with exactly that encoding — so every file leaf of
+   C01_leaves / C01_expected_leaves decodes according to the header that is actually emitted *)
+Theorem C01_file_leaf_body_as_announced : forall (w : N) (a : bool) (f : file) (fo : bool),
+  (match f_enc f with Some e => RenderIdemProofs.enc_canon e | None => True end) ->
+  exists v, get_h h_cte (f_hdr (fst (file_headers w a f))) = Some v /\
+            file_leaf fo (file_headers w a f) =
+            Leaf (file_hdr fo (fst (file_headers w a f))) (encode_body (enc_of_name v) (f_prod f)).
+Proof. exact file_leaf_body_as_announced. Qed.
+Print Assumptions C01_file_leaf_body_as_announced.
+
+(* instances: a header pre-set to 8bit on a file whose Enc says base64, and the reverse *)
+Example C01_preset_cte_example :
+  let f1 := mkfile (bs "a.bin") (bs "application/octet-stream") (Some EncB64) [] [(h_cte, bs "8bit")] (mkprod [bs "raw = text"] false) in
+  let f2 := mkfile (bs "a.bin") (bs "application/octet-stream") (Some Enc8bit) [] [(h_cte, bs "base64")] (mkprod [bs "raw = text"] false) in
+  snd (file_headers 113 true f1) = Enc8bit /\ snd (file_headers 113 true f2) = EncB64 /\
+  get_h h_cte (f_hdr (fst (file_headers 113 true f1))) = Some (bs "8bit").
+Proof. vm_compute. repeat split; reflexivity. Qed.
